@@ -23,4 +23,4 @@ Deliver, inside {wt}:
   3. evidence that the existing tests of the touched package(s) still pass with the change (run them; some packages have tests that fail in this sandbox even without any change — compare against the unchanged tree and report only differences);
   4. {wt}/meta.json: {{"property": "{pid}", "summary": "...what the change does...", "needs": "...what is needed for the violation to manifest...", "files": [...], "demo_cmd": "...", "existing_tests_cmd": "..."}}.
 
-Then report briefly: the patch, why it breaks the property, what it takes to manifest, and the outputs of the demo with/without the patch. Leave the worktree in place (patched) for inspection. The machine is heavily loaded: keep go test runs targeted (-run / -check.f filters) and expect builds to be slow.""")
+Then report briefly: the patch, why it breaks the property, what it takes to manifest, and the outputs of the demo with/without the patch. Leave the worktree in place (patched) for inspection. Never use `git stash` (the stash is shared between all worktrees of the repository and other agents work in parallel): to compare patched vs unpatched use `git apply -R patch.diff` / `git apply patch.diff`. The machine is heavily loaded: keep go test runs targeted (-run / -check.f filters) and expect builds to be slow.""")
